@@ -135,15 +135,18 @@ Outcome(tree0, series, first, last, cfg) ==
   LET r == Run(tree0, series, first + 1, last, <<>>, FALSE)
       doBackup == cfg.backup = "always" \/ (cfg.backup = "onfail" /\ r.stopped)
       from == IF cfg.win < 0 THEN 1 ELSE (IF r.k > cfg.win THEN r.k - cfg.win + 1 ELSE 1)
-      \* C13 says "if its directory exists" without saying when: a reject whose directory exists both
-      \* before the push and after the applied patches is required, one whose directory exists at only
-      \* one of the two instants is optional
+      \* a reject file is written iff its directory exists in the tree the push leaves behind; it holds, in the
+      \* order of the patch, the failed hunks of every file patch of the failing patch that targets the file
       Failing == {j \in 1..Len(r.failing) : r.failing[j].attempted /\ r.failing[j].failed # {}}
-      RejOf(j) == [path |-> r.failing[j].target, failed |-> r.failing[j].failed]
-      rej == {RejOf(j) : j \in {x \in Failing : DirExists(r.tree, ParentDir(r.failing[x].target))
-                                                  /\ DirExists(tree0, ParentDir(r.failing[x].target))}}
-      rejOpt == {RejOf(j) : j \in {x \in Failing : DirExists(r.tree, ParentDir(r.failing[x].target))
-                                                     # DirExists(tree0, ParentDir(r.failing[x].target))}}
+      RejPaths == {r.failing[j].target : j \in {x \in Failing : DirExists(r.tree, ParentDir(r.failing[x].target))}}
+      PartsOf(p) == LET js == {j \in Failing : r.failing[j].target = p}
+                        RECURSIVE Ordered(_)
+                        Ordered(S) == IF S = {} THEN <<>>
+                                      ELSE LET m == CHOOSE x \in S : \A y \in S : x <= y
+                                           IN <<[j |-> m, failed |-> r.failing[m].failed]>> \o Ordered(S \ {m})
+                    IN Ordered(js)
+      rej == {[path |-> p, parts |-> PartsOf(p)] : p \in RejPaths}
+      rejOpt == {}
   IN [k       |-> r.k,
       tree    |-> IF cfg.dry THEN tree0 ELSE r.tree,
       applied |-> IF cfg.dry THEN 0 ELSE r.k,                         \* names appended by this run
